@@ -62,6 +62,9 @@ pub struct ExpPoint {
     /// grey colour derived from intensity while the two normalisation switches differ:
     /// which switch governs the grey value is not documented, only presence is compared
     pub grey_unspecified: bool,
+    /// the cloud has no pose and stores a valid Cartesian value: it must come out untouched, bit for bit,
+    /// whatever the pose switch says (also infinities and negative zero)
+    pub exact_cart: Option<[f64; 3]>,
 }
 
 pub struct CloudView<'a> {
@@ -323,7 +326,11 @@ pub fn model_point(cv: &CloudView, raw: &[Val], o: Opts) -> Result<ExpPoint, Mod
     };
     let row = col(p, "rowIndex").map(|j| if let Val::I(v) = raw[j] { v } else { -1 }).unwrap_or(-1);
     let column = col(p, "columnIndex").map(|j| if let Val::I(v) = raw[j] { v } else { -1 }).unwrap_or(-1);
-    Ok(ExpPoint { cart, cart_alt, sph, sph_alt, color, intensity, row, column, extreme, grey_unspecified })
+    let exact_cart = match (&cv.meta.pose, orig_cart) {
+        (None, Cart::Valid(a)) => Some(a),
+        _ => None,
+    };
+    Ok(ExpPoint { cart, cart_alt, sph, sph_alt, color, intensity, row, column, extreme, grey_unspecified, exact_cart })
 }
 
 fn close(a: f64, b: f64, scale: f64) -> bool {
@@ -392,6 +399,13 @@ pub fn norm_matches(e: &Norm, g: f32) -> Result<(), String> {
 
 /// Compare a delivered point with the model; Err describes the first difference.
 pub fn compare(e: &ExpPoint, g: &e57::Point) -> Result<(), String> {
+    if let Some(a) = e.exact_cart {
+        let same = |x: f64, y: f64| x.to_bits() == y.to_bits() || (x.is_nan() && y.is_nan());
+        match &g.cartesian {
+            e57::CartesianCoordinate::Valid { x, y, z } if same(*x, a[0]) && same(*y, a[1]) && same(*z, a[2]) => {}
+            other => return Err(format!("cartesian: the cloud has no pose, the stored valid coordinates {a:?} must be delivered untouched, got {other:?}")),
+        }
+    }
     if !(cart_matches(&e.cart, &g.cartesian, e.extreme) || e.cart_alt.as_ref().map(|a| cart_matches(a, &g.cartesian, e.extreme)).unwrap_or(false)) {
         return Err(format!("cartesian: expected {:?} (or {:?}), got {:?}", e.cart, e.cart_alt, g.cartesian));
     }
